@@ -13,6 +13,7 @@
 -/
 import SnowModel.Snowing0D
 import SnowModel.Snowing1D
+import SnowModel.Snowing2D
 
 namespace Snow
 
@@ -107,5 +108,29 @@ def SnowObj.runStudyFixed {S H : Type} (_o : SnowObj (List S) H) (reps : List (R
 
 def out0D {α : Type} (r : Result0D α) : RunOut (Stats0D α) (Hist0D α) := ⟨r.exc, r.stats, r.hist⟩
 def out1D {α : Type} (r : Result1D α) : RunOut (Stats1D α) (Array (Row α)) := ⟨r.exc, r.stats, r.hist⟩
+
+
+/-- what one `_run_2D` call did to the object: `S2D.run` either returns the complete result (statistics
+and histories are fields of one `Result`) or the class of the exception – it writes nothing before -/
+def out2D {α : Type} (r : Except String (S2D.Result α)) : RunOut (S2D.Result α) (S2D.Result α) :=
+  match r with
+  | .ok res => ⟨none, some res, some res⟩
+  | .error e => ⟨some e, none, none⟩
+
+/-! ### asynchronous multi-repetition studies (`Nrep > 1`, `how="async"`)
+
+The repetitions run in worker processes on private copies of the object: the parent object receives the
+rows (`starmap_async(...).get()`, which re-raises the exception of a repetition that failed) but never the
+histories. -/
+
+/-- the exception `.get()` re-raises: that of the first repetition (in task order) that raised -/
+def asyncExc {S H : Type} (reps : List (RunOut S H)) : Option String :=
+  (reps.find? fun r => r.exc.isSome).bind (·.exc)
+
+/-- an asynchronous study on the repaired `run()` -/
+def SnowObj.runStudyAsync {S H : Type} (_o : SnowObj (List S) H) (reps : List (RunOut S H)) : SnowObj (List S) H :=
+  { status := if (asyncExc reps).isNone then 1 else 0,
+    stats := if (asyncExc reps).isNone then some (reps.filterMap (·.stats)) else none,
+    hist := none }
 
 end Snow
